@@ -171,6 +171,8 @@ def run_trainer(case, R):
         y = y + oracles.unit(rng.standard_normal((*lead, 1, D))) * case['spread'] * (1 if case['rs'][-1] % 3 else float(rng.choice([1e3, 1e5, 1e6])))
     else:
         y = np.einsum('...ab,...nb->...na', np.linalg.cholesky(gen.hpd(rng, D, cond=case['spread'] ** 2 + 1, lead=lead)), gen.cnormal(rng, (*lead, N, D)))
+    if fam in ('watson', 'ccsg') and case['rs'][-1] % 4 == 1 and N >= 4:
+        y[..., rng.permutation(N)[:max(1, N // 5)], :] = 0          # silent frames: they carry weight but no direction / power
     sal = make_saliency(rng, case['saliency'] if fam != 'cacg' else 'none', (*lead, N))
     g = (np.ones((*lead, N)) if sal is None else sal)[..., None, :]      # class axis of size 1 for the oracles
     mon = 'C08.trainer'
